@@ -29,6 +29,9 @@ RULE = (
 )
 
 
+PASS_KEY = 1000000  # the key under which prior passing reads the parameter order
+
+
 class Flaky(dict):
     """a dict attribute whose walk raises on demand (a failing call that is not the library's fault)"""
     bad = False
@@ -307,7 +310,9 @@ def one_case(ctx, progs, label="gen", script=None):
 
     # ---- model
     # prior passing reads the (cached) parameter order of the node: for the cache it is a query
-    model_ops = [[("query" if o[0] == "pass" else o[0]), o[1]] for o in ops]
+    # the cache key (function name and arguments) is abstracted to a number: the variant of the question asked
+    model_ops = [["query", o[1], PASS_KEY] if o[0] == "pass" else (["query", o[1], (o[2] if len(o) > 2 else 0)] if o[0] == "query" else [o[0], o[1]])
+                 for o in ops]
     ans = ctx.lean.ask({"p": "C13", "sub": sub, "anc": anc, "init_frozen": init_frozen, "ops": model_ops})
     case = {"programs": progs, "setup": setup, "ops": ops, "label": label}
     if "driver_error" in ans:
@@ -328,6 +333,8 @@ def one_case(ctx, progs, label="gen", script=None):
             ctx.hit("unsafe-unfreeze")
         if kind == "query":
             v = mo["answered"]
+            if mo.get("key") != (op[2] if len(op) > 2 else 0):
+                ctx.disagree("C13.answer-key", dict(case, at=j), {"asked": op[2] if len(op) > 2 else 0}, mo)
             # the model's current version of node i: replay bookkeeping from modify outcomes
             cur = cur_version.get(i, 0)
             fresh_by_version.setdefault((i, cur), fresh[j][:3])
